@@ -26,7 +26,7 @@ class SimRunaway(BaseException):
 
 
 class Sim:
-    max_attempts_per_op = 150
+    max_attempts_per_op = 400
 
     def __init__(self, server):
         self.server = server
